@@ -1,4 +1,5 @@
 import HexProofs.Framework.Schedule
+import HexProofs.Framework.Gen.ChainMoreDemo
 import HexProofs.Framework.Fill
 import HexProofs.Framework.Kinds.All
 import HexProofs.Framework.Gen.AllX
@@ -229,7 +230,12 @@ structure WellFormed (xs : List (Candle F)) : Prop where
 /-- **C01 at full strength**: every shipped kind (27 classes, composites included, as built by
 `mkTop`), every parameter choice with positive periods, base or collapsing timeframe, with or
 without gap filling, every construction prefix and append schedule.
-NOT proved at this strength.  Missing: (i) inputs that are other indicators' readings are proved for the standard
+NOT proved at this strength.  Item (i) below is CLOSED since round 5 for members on ONE manager (`C01_pair_more`, `C01_chain_more`,
+`C01_chain_more_tf` at the end of this file; `HexProofs/Framework/Gen/ChainMore*.lean`): every class that takes an `input_value` as a
+DEPENDENT (SMA, EMA, RMA, WMA, ROC, Counter, Amorph × 20, STDEV, RSI, MACD, KC, BBANDS, STDEVTHRES, HMA, STOCH, TSI) over a source
+member's reading or dict field, every one of the 27 classes as a SOURCE, chains of any length, any timeframe / fill – the hypothesis
+`AttrInput input` generalised to `InputVia` (the input column is a function of the bare row and the entries under the read keys,
+stable under the tree's own writes).  Still missing of (i): members on DIFFERENT timeframes.  Original list: (i) inputs that are other indicators' readings are proved for the standard
 pattern only (`C01_chain_covered`, `C01_chain_any_length`: dependent SMA / EMA / RMA / WMA / ROC members over a source member on
 the same manager); not for dependent composites (RSI over an EMA, …), sources without a component instance (ATR, RSI, VWAP, STDEV,
 HMA, the non-average leaves) or members on different timeframes;
@@ -393,5 +399,73 @@ def gappy : List (Candle Int) :=
 example : RawTf gappy := ⟨by decide, by decide, by decide, by decide⟩
 example : smaColumn (candlesOf (runIndicator demoSMA (cfgFill 120) [] [gappy.take 1, gappy.drop 1]))
     = some [none, some 4, some 4, some 5] := by decide +kernel
+
+/-! ### indicator-valued inputs, every class: dependents of any covered class over sources of any covered class -/
+
+open Hex.Chain in
+/-- **C01 for an indicator-valued input, every class.**  A `Hexital` holding a SOURCE member `A = mkTop kA nameA roundA` of ANY
+of the 27 classes over candle attributes (`SrcVia`, i.e. `MemberVia []`; ATR, RSI, VWAP, STDEV, HMA, STDEVTHRES and the
+non-average leaves included) and a DEPENDENT member `B = mkTop kB nameB roundB` of ANY class that takes an `input_value`
+(`DepVia main`, i.e. `MemberVia [main]`: SMA / EMA / RMA / WMA / ROC / Counter / Amorph / STDEV / RSI / MACD / KC / BBANDS /
+STDEVTHRES / HMA / STOCH / TSI) whose input is `main` or a dotted field `main.field` (`InputVia.ofInput`), `main` a key
+written by `A`, names disjoint.  Both on the Hexital's own manager, any timeframe, gap filling off or on.  Whenever the
+live history returns, the batch Hexital over the whole stream returns with the same managers. -/
+theorem C01_pair_more (tf : Option Int) (htf : ∀ t, tf = some t → 0 < t) (fill : Bool)
+    {nameA : String} {kA : Kind F} (hA : SrcVia nameA kA) (roundA : Nat)
+    {main nameB : String} {kB : Kind F} (hB : DepVia main nameB kB) (roundB : Nat)
+    (hmain : main ∈ (mkTop kA nameA roundA).allNames)
+    (hdis : ∀ x ∈ (mkTop kA nameA roundA).allNames, x ∉ (mkTop kB nameB roundB).allNames)
+    (tfn : Option String) (init : List (Candle F)) (chunks : List (List (Candle F)))
+    (hraw : RawTf (init ++ chunks.flatten)) (H : Hexital F)
+    (hlive : pairRun (mkTop kA nameA roundA) (mkTop kB nameB roundB) { tf := tf, fill := fill && tf.isSome }
+      tfn init chunks = .ok H) :
+    ∃ Hb, pairRun (mkTop kA nameA roundA) (mkTop kB nameB roundB) { tf := tf, fill := fill && tf.isSome }
+        tfn (init ++ chunks.flatten) [] = .ok Hb ∧ Hb.managers = H.managers :=
+  Hex.Chain.C01_pair_more tf htf fill hA roundA hB roundB hmain hdis tfn init chunks hraw H hlive
+
+open Hex.Chain in
+/-- … with the row-major spec spelled out, for any `MgrSpec`: live = row-major run of the pair's spec = batch -/
+theorem C01_pair_more_spec {nameA : String} {kA : Kind F} (hA : SrcVia nameA kA) (roundA : Nat)
+    {main nameB : String} {kB : Kind F} (hB : DepVia main nameB kB) (roundB : Nat)
+    (hmain : main ∈ (mkTop kA nameA roundA).allNames)
+    (hdis : ∀ x ∈ (mkTop kA nameA roundA).allNames, x ∉ (mkTop kB nameB roundB).allNames)
+    (M : MgrSpec F) (tfn : Option String) (init : List (Candle F)) (chunks : List (List (Candle F)))
+    (hok : M.Ok (init ++ chunks.flatten)) (H : Hexital F)
+    (hlive : pairRun (mkTop kA nameA roundA) (mkTop kB nameB roundB) M.cfg tfn init chunks = .ok H) :
+    ∃ (c : ChainCompsW [] [mkTop kA nameA roundA, mkTop kB nameB roundB]) (Hb : Hexital F) (cs : List (Candle F)),
+      pairRun (mkTop kA nameA roundA) (mkTop kB nameB roundB) M.cfg tfn (init ++ chunks.flatten) [] = .ok Hb ∧
+      Hb.managers = H.managers ∧ H.managers = [(defaultKey, { cfg := M.cfg, candles := cs })] ∧
+      Gen.rowMajor (chainSpecW c).S (M.spec (init ++ chunks.flatten)) = .ok cs :=
+  Hex.Chain.C01_pair_more_spec hA roundA hB roundB hmain hdis M tfn init chunks hok H hlive
+
+open Hex.Chain in
+/-- **Chains of any length, every class** (`CoveredChain`: each member a covered class reading only entries written by
+earlier members, names pairwise disjoint), any `MgrSpec`. -/
+theorem C01_chain_more {ts : List (Ind F)} (h : CoveredChain [] ts) (M : MgrSpec F) (tfn : Option String)
+    (init : List (Candle F)) (chunks : List (List (Candle F))) (hok : M.Ok (init ++ chunks.flatten))
+    (H : Hexital F) (hlive : chainRun ts M.cfg tfn init chunks = .ok H) :
+    ∃ (c : ChainCompsW [] ts) (Hb : Hexital F) (cs : List (Candle F)),
+      chainRun ts M.cfg tfn (init ++ chunks.flatten) [] = .ok Hb ∧
+      Hb.managers = H.managers ∧ Hb.indicators.map regInfo = H.indicators.map regInfo ∧
+      H.managers = [(defaultKey, { cfg := M.cfg, candles := cs })] ∧
+      Gen.rowMajor (chainSpecW c).S (M.spec (init ++ chunks.flatten)) = .ok cs :=
+  Hex.Chain.C01_chain_more h M tfn init chunks hok H hlive
+
+open Hex.Chain in
+/-- the same for any timeframe, gap filling off or on -/
+theorem C01_chain_more_tf {ts : List (Ind F)} (h : CoveredChain [] ts) (tf : Option Int)
+    (htf : ∀ t, tf = some t → 0 < t) (fill : Bool) (tfn : Option String) (init : List (Candle F))
+    (chunks : List (List (Candle F))) (hraw : RawTf (init ++ chunks.flatten)) (H : Hexital F)
+    (hlive : chainRun ts { tf := tf, fill := fill && tf.isSome } tfn init chunks = .ok H) :
+    ∃ Hb, chainRun ts { tf := tf, fill := fill && tf.isSome } tfn (init ++ chunks.flatten) [] = .ok Hb ∧
+      Hb.managers = H.managers ∧ Hb.indicators.map regInfo = H.indicators.map regInfo :=
+  Hex.Chain.C01_chain_more_tf h tf htf fill tfn init chunks hraw H hlive
+
+/-- non-vacuity (HexProofs/Framework/Gen/ChainMoreDemo.lean, `decide +kernel` there): RSI_2 over EMA_2, BBANDS over SMA_2,
+SMA_2 over `MACD_2_3_2.MACD`, HMA_2 over SMA_2, the chain SMA_2 → RSI_2 → EMA_3 -/
+example := @Hex.Chain.DemoMore.depRSI
+example := @Hex.Chain.DemoMore.depBB
+example := @Hex.Chain.DemoMore.depSMAm
+example := @Hex.Chain.DemoMore.demoChain3
 
 end Hex.C01
